@@ -91,18 +91,11 @@ def secbytes (img : Option Img) (a : List String) : String :=
       | none => "nosec"
   | _ => "bad-op"
 
-def nameHalves (b : Bytes) : Nat × Nat :=
-  (le32 b 0, le32 b 4)
-
 def bysec (img : Option Img) (fam : String) (a : List String) : String :=
   match a with
   | [k, x] => withView img k fun v =>
       let r := if fam == "byrva" then byRva v.secs (num x)
-        else
-          let nb := unhex x
-          if nb.size > 8 then none else
-          let (lo, hi) := nameHalves nb
-          byName v.secs lo hi
+        else byNameBytes v.secs (unhex x)      -- length guard and NUL padding are model code (C07_by_name_bytes)
       match r with
       | some i => s!"ok {i}"
       | none => "none"
